@@ -1,5 +1,14 @@
-"""C19 -- scc / nonterminal_graph."""
-import itertools, random
+"""C19 -- scc / nonterminal_graph.
+
+Two ties between the Coq development and /repo:
+  * correspondence: the hand-written model (Model/SCC.v) and the implementation run on the same
+    generated inputs (run());
+  * translation: harness/translate/py2gallina.py regenerates Gallina definitions from the source
+    text of fggs/utils.py on every run, and coq/theories/GeneratedProofs/ proves that they compute
+    what the hand-written model computes, so that the property theorems are re-checked against
+    what the code says now (translator_tie()).
+"""
+import itertools, random, hashlib, fcntl, ast as _ast
 from harness.core import *
 from harness import gen
 
@@ -13,6 +22,12 @@ CHECKFNS = [SCC, NTG]
 ASSUMPTIONS = [
     "dict keys are canonicalised to naturals; key type (int/str/tuple/EdgeLabel) is varied by the generator but not modelled",
     "graphs are closed (distinct keys, every successor is a key): on other inputs fggs.utils.scc raises KeyError; the check function returns verdict 2 for them and the theorems assume closed g = true",
+    "translator tie: the Gallina definitions gen_scc / gen_ntgraph are REGENERATED on every run from the source text of $FGGS_REPO/fggs/utils.py (functions scc, nonterminal_graph) by harness/translate/py2gallina.py; the theorems C19_gen_* (GeneratedProofs/C19_gen.v) are re-checked against them on every run. They say what the property theorems say, about the generated functions, PROVIDED the translator and the run-time library Model/PyRT.v give the Python subset its real meaning (trusted, not proved); the recursion fuel S(len(g)) and the while-loop fuel S(len(stack)) are artefacts of the embedding and are proved sufficient (the generated function never returns None on a closed graph)",
+    "translator tie, nonterminal_graph: the HRG is seen through the INTERFACE table of the translator as (nonterminals, [(lhs, [(edge label, is_nonterminal)])]); the theorems about gen_ntgraph assume distinct nonterminals and that every rule's left-hand side is a nonterminal (otherwise g[r.lhs] raises KeyError, modelled as None)",
+]
+TRUSTED_EXTRA = [
+    "harness/translate/py2gallina.py (Python-subset -> Gallina translator, fail-closed: raises Untranslatable on anything outside the subset) and its INTERFACE table (data abstraction of HRG / HRGRule / Edge / EdgeLabel); coq/theories/Model/PyRT.v (meaning of dict / list / set operations, for / while); Python's own ast module",
+    "regenerated on every run: coq/theories/Generated/SCC_gen.v (not committed; compiled only in build/gen/<tree>/, never by the main make); re-checked against it on every run: coq/theories/GeneratedProofs/SCC_gen_refines.v (hand-written refinement proofs) and GeneratedProofs/C19_gen.v (Print Assumptions parsed)",
 ]
 
 def _keyfun(kind):
@@ -48,7 +63,321 @@ def random_graph(rng, n, p):
 def shape(g):
     return (len(g), sum(len(ws) for _, ws in g))
 
+# ----------------------------------------------------------------------------
+# the translator tie
+
+TIED_BY_TRANSLATION = [
+    "fggs.utils.scc, including its closure visit (source text -> Fggs.Generated.SCC_gen.gen_scc; C19_gen_scc_refines, C19_gen_tarjan_correct_spec)",
+    "fggs.utils.nonterminal_graph (source text -> gen_ntgraph over the HRG view (nonterminals, rules); C19_gen_ntgraph_refines, C19_gen_nonterminal_graph_vertices/_edges)",
+]
+TIED_BY_CORRESPONDENCE_ONLY = [
+    "HRG.nonterminals / HRG.all_rules / HRGRule.lhs / Graph.edges / EdgeLabel.is_nonterminal: abstracted by the INTERFACE table of the translator as (nonterminals, [(lhs, [(label, is_nonterminal)])]); the harness builds that view from the fggs objects and the generated function is evaluated on it",
+    "the meaning of the Python dict / list / set operations (coq/theories/Model/PyRT.v) and the canonical numbering of dict keys by the harness",
+    "the hand-written model Model/SCC.v itself remains tied by the correspondence run; the translation tie is an additional, independent tie",
+]
+TIE_THEOREMS_FILE = "coq/theories/GeneratedProofs/C19_gen.v"
+TIE_PROOF_FILE = "coq/theories/GeneratedProofs/SCC_gen_refines.v"
+_GEN_IMPORTS = ("From Coq Require Import List Arith Bool.\nImport ListNotations.\n"
+                "Require Import Fggs.Model.SCC Fggs.Generated.SCC_gen.\n")
+# verdicts of the generated-model checks: 0 = the generated function returns exactly the implementation's output and
+# the oracle accepts it; 1 = the oracle rejects the GENERATED function's output; 2 = the oracle rejects the
+# implementation's output; 10 = both accepted but different; 11 = the generated function returns None (a Python
+# exception or fuel exhaustion in the model) where the implementation returned normally
+_GEN_SCC_CHK = """Definition chk (x : graph * list (list nat)) : nat :=
+  let (g, out) := x in
+  match gen_scc g with
+  | None => 11
+  | Some cs => if llist_eqb cs out then (if scc_ok g cs then 0 else 1)
+               else if negb (scc_ok g cs) then 1 else if negb (scc_ok g out) then 2 else 10
+  end.
+"""
+_GEN_NTG_CHK = """Definition chk (x : list nat * rules_t * graph) : nat :=
+  let '(nts, rules, out) := x in
+  match gen_ntgraph (nts, rules) with
+  | None => 11
+  | Some g => if negb (ntg_ok nts rules g) then 1 else if negb (ntg_ok nts rules out) then 2 else if graph_eqb g out then 0 else 10
+  end.
+"""
+_GEN_SEARCH = """Require Import Fggs.Proofs.SCC_bounded.
+Definition bad_oracle (g : graph) : bool := match gen_scc g with Some cs => negb (scc_ok g cs) | None => false end.
+Definition bad_model (g : graph) : bool :=
+  match gen_scc g, scc g with Some a, Some b => negb (llist_eqb a b) | None, None => false | _, _ => true end.
+Eval vm_compute in (find bad_oracle (graphs_upto4 ++ graphs_perm3)).
+Eval vm_compute in (find bad_model (graphs_upto4 ++ graphs_perm3)).
+"""
+
+def _tie_dir():
+    return os.path.join(BUILD, "gen", hashlib.sha1(REPO.encode()).hexdigest()[:10])
+
+def _coqc(path, scratch, timeout=600):
+    return sh(["timeout", str(timeout), "coqc", "-q", "-R", os.path.join(COQDIR, "theories"), "Fggs", "-R", scratch, "Fggs", path],
+              cwd=os.path.dirname(path), timeout=timeout + 30)
+
+def _run_gen_cases(scratch, tag, chk, ty, values, shard=125, jobs=8, timeout=600):
+    """evaluate the generated function (through chk) on every value inside Coq (vm_compute); list of codes"""
+    import subprocess
+    d = os.path.join(scratch, "cases"); os.makedirs(d, exist_ok=True)
+    files = []
+    for k in range(0, len(values), shard):
+        chunk = values[k:k + shard]
+        path = os.path.join(d, "GenCases_%s_%d.v" % (tag, k // shard))
+        with open(path, "w") as f:
+            f.write(_GEN_IMPORTS + chk)
+            f.write("Definition cases : list %s := [\n" % ty.coqty())
+            f.write(";\n".join(ty.coq(v) for v in chunk))
+            f.write("\n].\nEval vm_compute in (List.map chk cases).\n")
+        files.append((path, len(chunk)))
+    codes, pending, running = {}, list(files), []
+    def launch(path):
+        return subprocess.Popen(["timeout", str(timeout), "coqc", "-q", "-R", os.path.join(COQDIR, "theories"), "Fggs",
+                                 "-R", scratch, "Fggs", path], stdout=subprocess.PIPE, stderr=subprocess.STDOUT, text=True, cwd=d)
+    while pending or running:
+        while pending and len(running) < jobs:
+            p, n = pending.pop(0); running.append((p, n, launch(p)))
+        p, n, pr = running.pop(0)
+        out, _ = pr.communicate()
+        if pr.returncode != 0: raise BuildError("coqc failed on %s:\n%s" % (p, out[-3000:]))
+        body = out[out.rfind("= "):]
+        cs = [int(x) for x in re.findall(r"\d+", body[:body.rfind(":")])]
+        if len(cs) != n: raise BuildError("could not parse coqc output for %s:\n%s" % (p, out[-2000:]))
+        codes[p] = cs
+    return [c for p, _ in files for c in codes[p]]
+
+def _parse_found_graphs(out):
+    """the results of the two `Eval vm_compute in (find ...)` of _GEN_SEARCH: graph or None each"""
+    res = []
+    for m in re.finditer(r"=\s*(None|Some\s*(\[.*?\]))\s*:\s*option", out, re.S):
+        if m.group(1) == "None": res.append(None)
+        else: res.append([(v, list(ws)) for v, ws in _ast.literal_eval(m.group(2).replace(";", ","))])
+    return res
+
+def _enclosing_statement(src_path, log):
+    """name of the Lemma/Theorem in which coqc reported its error (from the 'line N' of the message)"""
+    m = re.search(r'line (\d+), characters', log)
+    if not m or not os.path.exists(src_path): return None
+    name = None
+    for i, line in enumerate(open(src_path), 1):
+        mm = re.match(r"\s*(?:Theorem|Lemma|Corollary|Example|Definition|Fixpoint|Ltac|Record)\s+([A-Za-z0-9_']+)", line)
+        if mm: name = mm.group(1)
+        if i >= int(m.group(1)): break
+    return name
+
+def _tie_build(log, audit=True):
+    """(a) translate the current source, (b) compile the generated file and the tie proofs into the scratch
+    directory, (c) audit Print Assumptions.  Returns a dict with status in
+    proved | untranslatable | generated-file-rejected | proof-broken | evaluated-only."""
+    from harness.translate import py2gallina
+    t0 = time.time()
+    scratch = _tie_dir()
+    th = os.path.join(COQDIR, "theories")
+    res = dict(scratch=scratch, translator="harness/translate/py2gallina.py", source=os.path.join(REPO, "fggs", "utils.py"))
+    for sub in ("Generated", "GeneratedProofs"):
+        os.makedirs(os.path.join(scratch, sub), exist_ok=True)
+        # objects of these two directories must only exist in the scratch build (two -R roots are searched)
+        for f in os.listdir(os.path.join(th, sub)) if os.path.isdir(os.path.join(th, sub)) else []:
+            if f.endswith((".vo", ".vok", ".vos", ".glob", ".aux")): os.remove(os.path.join(th, sub, f))
+    shutil.rmtree(os.path.join(scratch, "cases"), ignore_errors=True)
+    # (a)
+    try:
+        text, sha, dsha = py2gallina.translate()
+    except py2gallina.Untranslatable as e:
+        res.update(status="untranslatable", broken="harness/translate/py2gallina.py: %s" % e, detail=str(e), translate_s=round(time.time() - t0, 2))
+        return res
+    except (SyntaxError, OSError) as e:
+        res.update(status="untranslatable", broken="harness/translate/py2gallina.py: cannot read/parse the source: %r" % (e,), detail=repr(e))
+        return res
+    res.update(source_sha256=sha, definitions_sha256=dsha, translate_s=round(time.time() - t0, 2))
+    if REPO == "/repo":       # a copy for the reader, next to the hand-written files (git-ignored, never compiled there)
+        os.makedirs(os.path.join(th, "Generated"), exist_ok=True)
+        with open(os.path.join(th, "Generated", "SCC_gen.v"), "w") as f: f.write(text)
+    proofs = {}
+    for name in ("SCC_gen_refines.v", "C19_gen.v"):
+        p = os.path.join(th, "GeneratedProofs", name)
+        proofs[name] = open(p).read() if os.path.exists(p) else None
+    deps = sorted(glob_vo(th))
+    stamp = hashlib.sha256(("\0".join([text] + [proofs[k] or "" for k in sorted(proofs)]) +
+                            "".join("%s:%d" % (v, os.stat(v).st_mtime_ns) for v in deps)).encode()).hexdigest()
+    res["stamp"] = stamp
+    gen_v = os.path.join(scratch, "Generated", "SCC_gen.v")
+    ref_v = os.path.join(scratch, "GeneratedProofs", "SCC_gen_refines.v")
+    thm_v = os.path.join(scratch, "GeneratedProofs", "C19_gen.v")
+    sp = os.path.join(scratch, "stamp")
+    warm = (os.path.exists(sp) and open(sp).read() == stamp and os.path.exists(gen_v[:-2] + ".vo")
+            and (proofs["SCC_gen_refines.v"] is None or os.path.exists(ref_v[:-2] + ".vo")))
+    res["reused_scratch_objects"] = warm
+    if not warm:
+        if os.path.exists(sp): os.remove(sp)
+        for f in (gen_v, ref_v, thm_v):
+            for ext in (".vo", ".vok", ".vos", ".glob"):
+                if os.path.exists(f[:-2] + ext): os.remove(f[:-2] + ext)
+        with open(gen_v, "w") as f: f.write(text)
+        t1 = time.time()
+        rc, out = _coqc(gen_v, scratch)
+        res["coqc_generated_s"] = round(time.time() - t1, 2)
+        if rc != 0:
+            res.update(status="generated-file-rejected", broken="coq/theories/Generated/SCC_gen.v (generated) does not compile", detail=out[-2500:])
+            return res
+    if proofs["SCC_gen_refines.v"] is None or proofs["C19_gen.v"] is None:
+        res.update(status="evaluated-only", detail="no tie proof in coq/theories/GeneratedProofs/")
+        return res
+    if not warm:
+        with open(ref_v, "w") as f: f.write(proofs["SCC_gen_refines.v"])
+        t1 = time.time()
+        rc, out = _coqc(ref_v, scratch, timeout=900)
+        res["coqc_refinement_s"] = round(time.time() - t1, 2)
+        if rc != 0:
+            where = _enclosing_statement(ref_v, out)
+            res.update(status="proof-broken", broken="%s: %s no longer checks against the regenerated definitions" % (TIE_PROOF_FILE, where or "the file"),
+                       broken_theorem=where, detail=out[-2500:])
+            return res
+        with open(sp, "w") as f: f.write(stamp)
+    if not audit:       # bin/setup: only make sure the scratch objects exist (every bin/check of every property runs bin/setup)
+        res["status"] = "warm"
+        return res
+    # (c) the theorem file is recompiled on every run, its Print Assumptions output parsed (as core.audit_props does)
+    with open(thm_v, "w") as f: f.write(proofs["C19_gen.v"])
+    t1 = time.time()
+    rc, out = _coqc(thm_v, scratch)
+    res["coqc_theorems_s"] = round(time.time() - t1, 2)
+    src = proofs["C19_gen.v"]
+    theorems = re.findall(r"^\s*(?:Theorem|Lemma|Corollary)\s+([A-Za-z0-9_']+)", src, re.M)
+    n_print = len(re.findall(r"^\s*Print Assumptions", src, re.M))
+    closed = out.count("Closed under the global context")
+    forbidden = re.findall(r"\b(Admitted|admit|Axiom|Parameter|Conjecture|Unset Guard|bypass_check)\b",
+                           src + proofs["SCC_gen_refines.v"] + re.sub(r"\(\*.*?\*\)", "", text, flags=re.S))
+    res.update(theorems=theorems, print_assumptions=n_print, closed_under_global_context=closed)
+    if rc != 0 or closed != n_print or n_print < len(theorems) or "Axioms:" in out or forbidden:
+        where = _enclosing_statement(thm_v, out) if rc != 0 else None
+        res.update(status="proof-broken", broken="%s: %s" % (TIE_THEOREMS_FILE, ("%s no longer checks" % where) if where else
+                                                             "Print Assumptions audit failed (%d closed of %d, forbidden words %s)" % (closed, n_print, forbidden)),
+                   broken_theorem=where, detail=out[-2500:])
+        return res
+    res["status"] = "proved"
+    return res
+
+def glob_vo(th):
+    import glob
+    return [f for pat in ("Model/SCC.vo", "Model/PyRT.vo", "Proofs/SCC_*.vo") for f in glob.glob(os.path.join(th, pat))]
+
+def warm_tie(audit=True):
+    """steps (a)-(c) under the scratch build's lock.  bin/setup calls it (non-fatally) with audit=False at its end:
+    translate + compile Generated/SCC_gen.v and GeneratedProofs/SCC_gen_refines.v into the scratch build if stale"""
+    os.makedirs(os.path.join(BUILD, "gen"), exist_ok=True)
+    with open(os.path.join(BUILD, "gen", ".lock"), "w") as lk:
+        fcntl.flock(lk, fcntl.LOCK_EX)
+        return _tie_build([], audit=audit)
+
+def translator_tie(tier, seed, vals, n_exh, hvals, corr_violations, prebuilt=None):
+    """The second tie of C19, run on every check: regenerate the Gallina definitions from the source that is being
+    checked, re-check the refinement proofs and the C19_gen_* theorems against them, and ALSO evaluate the generated
+    functions on the graphs / HRGs of the correspondence stream against the implementation's outputs and the oracles.
+    Returns (coverage, violations)."""
+    t0 = time.time()
+    os.makedirs(os.path.join(BUILD, "gen"), exist_ok=True)
+    with open(os.path.join(BUILD, "gen", ".lock"), "w") as lk:
+        fcntl.flock(lk, fcntl.LOCK_EX)
+        # steps (a)-(c); run() starts them in a thread while the correspondence stream is being generated
+        res = prebuilt.result() if prebuilt is not None else _tie_build([])
+        status = res["status"]
+        cov = {k: v for k, v in res.items() if k not in ("detail", "scratch", "stamp")}
+        cov["translator_tie"] = status
+        viol = []
+        have_gen = status in ("proved", "proof-broken", "evaluated-only")
+        broken = status in ("untranslatable", "generated-file-rejected", "proof-broken")
+        scc_bad = ntg_bad = None
+        if have_gen:
+            # (d) the generated functions on the inputs of the correspondence stream; a larger sample and an
+            # in-kernel exhaustive search when the proof is broken (this IS the search for a failing input)
+            rng = random.Random(seed * 31 + 7)
+            n_s = (250 if tier == "quick" else 1000) * (4 if broken else 1)     # of each: exhaustive part, random part
+            n_h = (200 if tier == "quick" else 1000) * (2 if broken else 1)
+            exh, rnd = list(range(min(n_exh, len(vals)))), list(range(min(n_exh, len(vals)), len(vals)))
+            rng.shuffle(exh); rng.shuffle(rnd)
+            pick = sorted(exh[:n_s] + rnd[:n_s])
+            hpick = list(range(len(hvals)))
+            if len(hpick) > n_h: rng.shuffle(hpick); hpick = sorted(hpick[:n_h])
+            t1 = time.time()
+            from concurrent.futures import ThreadPoolExecutor
+            with ThreadPoolExecutor(2) as ex:
+                f1 = ex.submit(_run_gen_cases, res["scratch"], "scc", _GEN_SCC_CHK, SCC.ty, [vals[i] for i in pick])
+                f2 = ex.submit(_run_gen_cases, res["scratch"], "ntg", _GEN_NTG_CHK, NTG.ty, [hvals[i] for i in hpick])
+                codes, hcodes = f1.result(), f2.result()
+            cov.update(generated_model_evaluations=len(codes) + len(hcodes), generated_model_eval_s=round(time.time() - t1, 2),
+                       generated_model_verdicts={str(c): (codes + hcodes).count(c) for c in sorted(set(codes + hcodes))})
+            scc_bad = sorted(((c, vals[i]) for i, c in zip(pick, codes) if c != 0), key=lambda x: (x[0] >= 10, len(repr(x[1][0]))))
+            ntg_bad = sorted(((c, hvals[i]) for i, c in zip(hpick, hcodes) if c != 0), key=lambda x: (x[0] >= 10, len(repr(x[1]))))
+            found = []
+            if broken:
+                sv = os.path.join(res["scratch"], "cases", "GenSearch.v")
+                with open(sv, "w") as f: f.write(_GEN_IMPORTS + _GEN_SEARCH)
+                rc, out = _coqc(sv, res["scratch"], timeout=900)
+                fg = _parse_found_graphs(out) if rc == 0 else []
+                cov["in_kernel_search"] = dict(domain="all digraphs on <= 4 vertices + all insertion orders on 3 (Proofs/SCC_bounded.v)",
+                                               exit=rc, oracle_rejects_generated_output=(fg[0] if len(fg) > 0 else "?"),
+                                               generated_differs_from_hand_model=(fg[1] if len(fg) > 1 else "?"))
+                if len(fg) > 0 and fg[0] is not None: found.append(("in-kernel search", 1, fg[0]))
+                if len(fg) > 1 and fg[1] is not None: found.append(("in-kernel search", 10, fg[1]))
+        names = "C19_gen_scc_refines, C19_gen_tarjan_correct_spec, C19_gen_tarjan_correct, C19_gen_ntgraph_refines, C19_gen_nonterminal_graph_vertices, C19_gen_nonterminal_graph_edges"
+        if not broken:
+            # the proofs hold (or never existed): any disagreement of the generated function is reported for what it is
+            for c, (g, out) in (scc_bad or [])[:3]:
+                viol.append(Violation("generated model of scc (translated from the source) %s" % _gen_code_text(c), case=dict(graph=g), observed=out,
+                                      oracle="scc_ok" if c < 10 else None, corr="translator tie / gen_scc (code %d)" % c,
+                                      failing_input_found=(c < 10), call="fggs.utils.scc(graph)"))
+            for c, v in (ntg_bad or [])[:3]:
+                viol.append(Violation("generated model of nonterminal_graph %s" % _gen_code_text(c), case=dict(nonterminals=v[0], rules=v[1]),
+                                      observed=v[2], oracle="ntg_ok" if c < 10 else None, corr="translator tie / gen_ntgraph (code %d)" % c,
+                                      failing_input_found=(c < 10), call="fggs.utils.nonterminal_graph(hrg)"))
+        else:
+            # the tie is broken: search for a concrete failing input
+            what = "translator tie broken: " + res["broken"]
+            failing = None
+            for c, (g, out) in (scc_bad or []):
+                if c < 10: failing = dict(graph=g, found_by="generated model on the correspondence stream (verdict %d: %s)" % (c, _gen_code_text(c))); break
+            if failing is None and have_gen:
+                for how, c, g in found:
+                    if c < 10: failing = dict(graph=g, found_by="%s: the oracle scc_ok rejects the generated function's output" % how); break
+            if failing is None:
+                for v in corr_violations:
+                    if v.found and isinstance(v.case, dict) and "graph" in v.case:
+                        if failing is None or len(repr(v.case["graph"])) < len(repr(failing["graph"])):
+                            failing = dict(graph=v.case["graph"], found_by="correspondence stream: " + v.what)
+            ntg_failing = None
+            for c, v in (ntg_bad or []):
+                if c < 10: ntg_failing = v; break
+            if failing is None and ntg_failing is None:
+                for v in corr_violations:
+                    if v.found and isinstance(v.case, dict) and "rules" in v.case: ntg_failing = (v.case["nonterminals"], v.case["rules"], v.observed); break
+            if failing is not None:
+                g = [(a, list(b)) for a, b in failing["graph"]]
+                try: obs = run_scc_impl(g, 0)
+                except Exception as e: obs = "raised %r" % (e,)
+                viol.append(Violation(what + "; a failing input was found", case=dict(graph=g, translator_tie=status, found_by=failing["found_by"]),
+                                      observed=obs, oracle="scc_ok", corr="%s (theorems no longer re-checked: %s)" % (res["broken"], names),
+                                      failing_input_found=True, call="fggs.utils.scc(graph)"))
+            elif ntg_failing is not None:
+                viol.append(Violation(what + "; a failing input was found", case=dict(nonterminals=ntg_failing[0], rules=ntg_failing[1], translator_tie=status),
+                                      observed=ntg_failing[2], oracle="ntg_ok", corr="%s (theorems no longer re-checked: %s)" % (res["broken"], names),
+                                      failing_input_found=True, call="fggs.utils.nonterminal_graph(hrg)"))
+            else:
+                mism = [dict(graph=g, verdict=c) for c, (g, _) in (scc_bad or [])[:2]] + [dict(graph=g, verdict=c, found_by=how) for how, c, g in (found if have_gen else [])]
+                viol.append(Violation(what, case=dict(translator_tie=status, broken=res["broken"], theorem=res.get("broken_theorem"),
+                                                      file=TIE_PROOF_FILE if status == "proof-broken" else "harness/translate/py2gallina.py",
+                                                      source_sha256=res.get("source_sha256"),
+                                                      generated_model_disagreements_without_oracle_rejection=mism),
+                                      observed=res.get("detail"), corr="%s (theorems no longer re-checked: %s)" % (res["broken"], names),
+                                      failing_input_found=False, call="bin/check C19 quick"))
+        cov["wall_s"] = round(time.time() - t0, 2)
+    return cov, viol
+
+def _gen_code_text(c):
+    return {1: "returns an output that the verified oracle rejects", 2: "agrees with nothing: the oracle rejects the implementation's output",
+            10: "differs from the implementation's output although the oracle accepts both",
+            11: "raises / runs out of fuel (None) where the implementation returns normally"}.get(c, "verdict %d" % c)
+
 def run(tier, seed):
+    from concurrent.futures import ThreadPoolExecutor
+    tie_future = ThreadPoolExecutor(1).submit(warm_tie)     # translate + compile the tie concurrently (own lock)
     rng = random.Random(seed)
     violations = []
     cases = []
@@ -136,6 +465,11 @@ def run(tier, seed):
                         dict(nonterminals=hvals[0][0], rules=hvals[0][1], impl_graph=hvals[0][2])],
                size_histogram=sizes, kernel_reevaluated=nk + nk2,
                open_items=[])
+    tie_cov, tie_viol = translator_tie(tier, seed, vals, n_exh, hvals, violations, prebuilt=tie_future)
+    cov["translator_tie"] = tie_cov
+    cov["tied_by_translation"] = TIED_BY_TRANSLATION
+    cov["tied_by_correspondence_only"] = TIED_BY_CORRESPONDENCE_ONLY
+    violations.extend(tie_viol)
     if tier == "thorough":
         # independent re-check of the compiled development with coqchk (several minutes)
         rc, out = sh(["timeout", "1500", "coqchk", "-silent", "-o", "-R", os.path.join(COQDIR, "theories"), "Fggs", "Fggs.Props.C19"], cwd=COQDIR, timeout=1600)
@@ -149,7 +483,12 @@ def run(tier, seed):
 def replay(path):
     import json
     r = json.load(open(path))
-    c = r["case"]
+    c = r["case"] or {}
+    if "translator_tie" in c and "graph" not in c and "rules" not in c:
+        res = warm_tie()
+        print("translator tie:", res["status"], res.get("broken", ""))
+        print(res.get("detail", "")[-1500:])
+        return 0 if res["status"] in ("proved", "evaluated-only") else 1
     if "graph" in c:
         g = [(v, ws) for v, ws in c["graph"]]
         out = run_scc_impl(g, 0)
@@ -161,7 +500,7 @@ def replay(path):
 
 MANIFEST = dict(
     level="proof",
-    text="Coq theorems: nonterminal_graph model has exactly the specified vertices and edges (unbounded); the Tarjan model (which follows fggs.utils.scc statement by statement) is proved correct for EVERY closed graph by an invariant proof (C19_partition: the fuel never runs out and every vertex is emitted exactly once; C19_tarjan_correct / C19_tarjan_correct_spec: the output is the dependency-ordered SCC decomposition: components = classes of mutual reachability, no edge from a component to a later one); the executable oracle scc_ok is proved sound AND complete for that Prop-level specification (C19_checker, C19_reaches_correct). The bounded theorems (all digraphs on <= 4 vertices, all insertion orders on 3) are kept as an independent in-kernel cross-check. The model is tied to /repo by running both on the same graphs (exhaustive to 4 vertices, random beyond) and requiring identical component lists; the verified oracles scc_ok / ntg_ok judge every implementation output.",
-    note="Trusted: Coq kernel + vm_compute, extraction (ExtrOcamlBasic only) cross-checked against vm_compute, the Python harness that numbers dict keys, and the statement-by-statement reading of fggs.utils.scc into Model/SCC.v (tested by the correspondence run, not proved). The theorems assume closed graphs (every successor is a key), which is what nonterminal_graph produces and outside of which the Python code raises KeyError.",
-    technique="Coq proof (model + theorems) + model/implementation correspondence with verified-spec oracle",
+    text="Coq theorems: nonterminal_graph model has exactly the specified vertices and edges (unbounded); the Tarjan model (which follows fggs.utils.scc statement by statement) is proved correct for EVERY closed graph by an invariant proof (C19_partition: the fuel never runs out and every vertex is emitted exactly once; C19_tarjan_correct / C19_tarjan_correct_spec: the output is the dependency-ordered SCC decomposition: components = classes of mutual reachability, no edge from a component to a later one); the executable oracle scc_ok is proved sound AND complete for that Prop-level specification (C19_checker, C19_reaches_correct). The bounded theorems (all digraphs on <= 4 vertices, all insertion orders on 3) are kept as an independent in-kernel cross-check. The model is tied to /repo in two independent ways. (1) Correspondence: model and implementation run on the same graphs (exhaustive to 4 vertices, random beyond) and must give identical component lists; the verified oracles scc_ok / ntg_ok judge every implementation output. (2) Translation: on every run harness/translate/py2gallina.py regenerates Gallina definitions (gen_scc with its closure visit, gen_ntgraph) from the current source text of fggs/utils.py; GeneratedProofs/SCC_gen_refines.v proves, against the regenerated text, that they compute exactly what the hand-written model computes on every closed graph (C19_gen_scc_refines, C19_gen_ntgraph_refines: a forward simulation; KeyError/IndexError are modelled as None and proved not to happen), whence C19_gen_tarjan_correct_spec and C19_gen_nonterminal_graph_vertices/_edges: the property theorems about what the code says now. A change of the source that breaks the property breaks this proof or the correspondence; when the proof breaks the check searches for a concrete failing input (generated function and implementation on the correspondence stream, plus an in-kernel exhaustive search on <= 4 vertices) and reports it, or reports the broken theorem with no-failing-input-found.",
+    note="Trusted: Coq kernel + vm_compute, extraction (ExtrOcamlBasic only) cross-checked against vm_compute, the Python harness that numbers dict keys, the statement-by-statement reading of fggs.utils.scc into Model/SCC.v (tested by the correspondence run, not proved), and, for the translation tie, the translator harness/translate/py2gallina.py with its run-time library Model/PyRT.v and its INTERFACE table (the HRG accessors are NOT translated: tied by correspondence only). Regenerated on every run: Generated/SCC_gen.v; re-checked on every run: GeneratedProofs/SCC_gen_refines.v, GeneratedProofs/C19_gen.v. The theorems assume closed graphs (every successor is a key), which is what nonterminal_graph produces and outside of which the Python code raises KeyError.",
+    technique="Coq proof (model + theorems) + model/implementation correspondence with verified-spec oracle + model regenerated from the source by a translator and proved to refine the hand model on every run",
     design_ref="DESIGN.md section 6, C19")
